@@ -56,3 +56,15 @@ fn shim_os_ends_with_slash(p: &OsString) -> (r: bool)
 fn shim_os_clone(s: &OsString) -> (r: OsString)
     ensures osbs(&r) == osbs(s)
 { s.to_os_string() }
+// shim D6.string_from_utf8_os: String::from_utf8(os.as_bytes().to_vec())
+#[verifier::external_body]
+fn shim_string_from_utf8_os(x: &OsStr) -> (r: core::result::Result<String, FromUtf8Error>)
+    ensures r is Ok <==> valid_utf8(osb(x)), r is Ok ==> r->Ok_0@ == decode_utf8(osb(x))
+{ String::from_utf8(x.as_bytes().to_vec()) }
+// shim D6.opt_os_to_str: Option<&OsStr>::and_then(OsStr::to_str)
+#[verifier::external_body]
+fn shim_opt_os_to_str<'a>(a: Option<&'a OsStr>) -> (r: Option<&'a str>)
+    ensures (match a {
+        Some(o) => if valid_utf8(osb(o)) { r is Some && r->Some_0.spec_bytes() == osb(o) } else { r is None },
+        None => r is None })
+{ a.and_then(OsStr::to_str) }
